@@ -169,7 +169,7 @@ def doNonuniform (l : Line) : Option String := do
   let xmax ← l.orats? "max"
   let fl ← l.get? "nob" >>= parseFlags
   let ax ← zipAxes c xmin xmax
-  match fl.loopFlags c.length false with
+  match fl.loopFlags c.length with
   | none => some "err"
   | some lf =>
     some (showRes ((List.zip ax lf).mapM fun ((r, (a, b)), (bl, br)) =>
